@@ -17,7 +17,7 @@ def parseFiles : List String → Option (List File)
     let name ← strOfHex n
     let content ← strOfHex c
     let fs ← parseFiles rest
-    some ({ name := name, isDir := k == "d", content := content } :: fs)
+    some ({ name := name, isDir := k == "d", content := content, excluded := k == "x" } :: fs)
   | _ => none
 
 def step (_ : Unit) (ws : List String) : Unit × String :=
